@@ -21,7 +21,7 @@ ATTR_CANDIDATES = [
     ("intent", "in"), ("intent", "out"), ("intent", "inout"), ("intent", "bogus"),
     ("value", True), ("hidden", True), ("external", True), ("cdesc", True), ("assumedtype", True),
     ("rank", "0"), ("rank", "1"), ("rank", "2"), ("rank", "x"), ("rank", "-1"), ("rank", "9"),
-    ("dimension", "n"), ("dimension", ":"), ("dimension", ".."), ("dimension", "n+1,2"), ("dimension", ""), ("dimension", "n+"),
+    ("dimension", "n"), ("dimension", ":"), ("dimension", ".."), ("dimension", "n+1,2"), ("dimension", ""), ("dimension", True), ("dimension", "n+"),
     ("implied", "size(p)"), ("implied", "size()"), ("implied", "size(p,2)"), ("implied", "size(q)"), ("implied", "len(p)"),
     ("implied", "len()"), ("implied", "len_trim(p)"), ("implied", "n+"), ("implied", "bad("), ("implied", "1+size()"),
     ("len", "30"), ("len", "n"), ("charlen", "20"), ("charlen", "x y"),
@@ -121,9 +121,39 @@ class AttrHarness(object):
                     "violation": self.witness("internal %s: %s" % (type(value).__name__, str(value)[:120]),
                                               {"exc": type(value).__name__, "site": list(site) if site else None}),
                     "vkey": "internal/%s@%s:%s" % (type(value).__name__, site[1] if site else None, site[2] if site else None)}
+        why = documented_misuse(self.kind, self.shape, self.picks)
+        if why:
+            return {"cls": cls + "/accepted-misuse", "violation": self.witness("silently accepted although %s" % why, {"misuse": why}),
+                    "vkey": "attrs/accepted:" + why[:50]}
         if self.twin:
             return {"cls": cls, "violation": self.witness("reachability twin"), "vkey": "twin"}
         return {"cls": cls + "/accepted", "sample": self.witness(None)}
+
+
+def documented_misuse(kind, shape, picks):
+    """Attribute uses that docs/input.rst (section Attributes) states are errors or not meaningful for the
+    declaration; an accepted path that matches one is a silent acceptance.  Independent of the code's own tests."""
+    attrs = dict(p for p in picks if p is not None)
+    if kind == "arg":
+        text = ARG_SHAPES[shape]
+        base = text.replace("const ", "").strip()
+        nptr = base.count("*")
+        is_text = base.startswith("char") or base.startswith("std::string")
+        nind = nptr + base.count("&")
+        if "charlen" in attrs:
+            if attrs["charlen"] is True:
+                return "charlen needs a value"
+            # documented for 'char *arg+intent(out)'; the std::string spelling of the same thing is tolerated
+            if not (is_text and nind == 1):
+                return "charlen is only for a character argument with one level of indirection (docs: size of a char *arg+intent(out))"
+    if "nosuchattribute" in attrs:
+        return "the attribute name 'nosuchattribute' is not one Shroud knows"
+    if "dimension" in attrs and attrs["dimension"] is True:
+        return "a dimension attribute without any value is documented as an error"
+    if "rank" in attrs and attrs.get("dimension") not in (None, ""):
+        # (an empty `+dimension()` is not covered by the documented rule and is left out)
+        return "rank and dimension cannot be specified together"
+    return None
 
 
 def make_attr(**kw):
@@ -248,7 +278,7 @@ def confirm(w):
         site = site_of(ex)
         return (w.get("exc") == type(ex).__name__), {"outcome": "internal", "exc": type(ex).__name__, "message": str(ex)[:200],
                                                       "site": list(site) if site else None}
-    return False, {"outcome": "accepted"}
+    return bool(w.get("misuse")), {"outcome": "accepted"}
 
 
 def specs(tier):
